@@ -50,6 +50,9 @@ pub struct DeltaMember {
 pub enum WCmd {
     /// kind 0 SYN, 1 SYN-ACK, 2 ACK, 3 BadCluster; plan 0 auto, 1 raw, 2 zstd
     Message { kind: u8, digest: Vec<MemberSpec>, delta: Vec<DeltaMember>, cluster_len: usize, plan: u8, block: usize },
+    /// a real node that advertises a link-local IPv6 address with this scope id (0: none) emits its
+    /// SYN; the bytes must decode back to an equal message
+    ScopedSelf { scope: u32 },
 }
 
 fn mk_id(s: &IdSpec) -> Id {
@@ -90,6 +93,7 @@ struct Ww {
     trace: Trace,
     log: Vec<String>,
     decided: u64,
+    known: Vec<String>,
 }
 
 impl Ww {
@@ -97,9 +101,44 @@ impl Ww {
         Violation { property: "C08".into(), code: code.into(), step: self.step, detail, finding: String::new() }
     }
 
+    /// C08 on what a node with a scoped address emits. Known finding KF-4: the scope id is part of
+    /// `ChitchatId` equality but not of the wire format.
+    fn scoped_self(&mut self, scope: u32) -> Result<(), Violation> {
+        use chitchat::{Deserializable, Serializable};
+        let step = self.step;
+        let addr = std::net::SocketAddr::V6(std::net::SocketAddrV6::new(std::net::Ipv6Addr::new(0xfe80, 0, 0, 0, 0, 0, 0, 1), 7280, 0, scope));
+        let id = Id { node_id: "scoped".into(), generation: 1, addr };
+        let solo = Solo::new(SoloCfg { id, cluster: "c".into(), grace_ms: 10_000, dead_grace_ms: 100_000_000, phi: 8.0, window: 10, max_interval_ms: 10_000, initial_interval_ms: 5_000, predicate: false }, None);
+        let real = {
+            let _g = solo.rt.enter();
+            solo.chit.verif_create_syn_message()
+        };
+        let bytes = real.serialize_to_vec();
+        let mut cur = &bytes[..];
+        let back = chitchat::ChitchatMessage::deserialize(&mut cur).map_err(|e| Violation { property: "C08".into(), code: "C08.decode".into(), step, detail: format!("real decoder rejects own output: {e}"), finding: String::new() })?;
+        self.decided += 1;
+        self.trace.u(scope as u64);
+        self.trace.u(bytes.len() as u64);
+        if back != real {
+            let (b, r) = (format!("{back:?}"), format!("{real:?}"));
+            if crate::e1::world::strip_scope(&b) == crate::e1::world::strip_scope(&r) {
+                self.stats.inc("known_kf4");
+                if self.known.len() < 4 {
+                    self.known.push(format!("KF-4 the SYN of a node that advertises {addr} decodes to a message that names {} instead: the scope id of an IPv6 address is not on the wire", crate::e1::world::without_scope(addr)));
+                }
+            } else {
+                return Err(Violation { property: "C08".into(), code: "C08.roundtrip".into(), step, detail: format!("SYN of a node at {addr} does not round-trip"), finding: String::new() });
+            }
+        }
+        Ok(())
+    }
+
     fn apply(&mut self, cmd: &WCmd, keep_log: bool) -> Result<(), Violation> {
         self.step += 1;
-        let WCmd::Message { kind, digest, delta, cluster_len, plan, block } = cmd;
+        if let WCmd::ScopedSelf { scope } = cmd {
+            return self.scoped_self(*scope);
+        }
+        let WCmd::Message { kind, digest, delta, cluster_len, plan, block } = cmd else { return Ok(()) };
         let mut dmap: BTreeMap<Id, NodeDigest> = BTreeMap::new();
         for m in digest {
             dmap.insert(mk_id(&m.id), NodeDigest { heartbeat: m.hb, gc: m.gc, max: m.mv });
@@ -333,13 +372,16 @@ fn gen(seed: u64) -> (WCfg, Vec<WCmd>) {
         }
         cmds.push(WCmd::Message { kind, digest, delta, cluster_len: *r.pick(&[1usize, 15, 255, 256]), plan: r.below(3) as u8, block: *r.pick(&[1usize, 7, 100, 1000, 16_383, 16_384, 16_385, 40_000, 65_535]) });
     }
+    if r.chance(0.03) {
+        cmds.push(WCmd::ScopedSelf { scope: *r.pick(&[0u32, 1, 2, 7, u32::MAX]) });
+    }
     (WCfg {}, cmds)
 }
 
 fn execute(cmds: &[WCmd], log: bool, prop: &str) -> (Outcome, Vec<String>) {
     let id = Id { node_id: "wire".into(), generation: 0, addr: "10.7.255.1:7000".parse().unwrap() };
     let solo = Solo::new(SoloCfg { id, cluster: "c".into(), grace_ms: 10_000, dead_grace_ms: 100_000_000, phi: 8.0, window: 10, max_interval_ms: 10_000, initial_interval_ms: 5_000, predicate: false }, None);
-    let mut w = Ww { solo, step: 0, stats: Stats::default(), trace: Trace::default(), log: Vec::new(), decided: 0 };
+    let mut w = Ww { solo, step: 0, stats: Stats::default(), trace: Trace::default(), log: Vec::new(), decided: 0, known: Vec::new() };
     let mut v = None;
     for c in cmds {
         if let Err(e) = w.apply(c, log) {
@@ -347,7 +389,7 @@ fn execute(cmds: &[WCmd], log: bool, prop: &str) -> (Outcome, Vec<String>) {
             break;
         }
     }
-    let mut o = Outcome { trace: w.trace.0, stats: w.stats.clone(), steps: w.step as u64, sim_ms: 0, nontrivial: w.decided > 0, ..Default::default() };
+    let mut o = Outcome { trace: w.trace.0, stats: w.stats.clone(), steps: w.step as u64, sim_ms: 0, nontrivial: w.decided > 0, known_hits: w.known.clone(), ..Default::default() };
     match v {
         Some(v) if v.property == prop => o.violation = Some(v),
         Some(v) => o.foreign_abort = Some(format!("{}: {}", v.code, v.detail)),
